@@ -14,6 +14,8 @@
 #include <thread>
 #include <chrono>
 #include <mutex>
+#include <csignal>
+#include <unistd.h>
 
 using namespace cocls;
 using pub_t = publisher<int>;
@@ -153,6 +155,19 @@ static void run_case(std::istream &in, std::size_t maxlen, std::size_t minlen) {
             c.pub.reset();          // closes the queue: everybody still waiting is released
             c.poll();
             vh::emit("end", c.evs);
+            // anybody still parked now was not released by close (reported by the oracle as close-no-wake);
+            // release blocked threads / coroutines by hand so that the process can go on
+            for (auto &e : c.subs) {
+                if (e.phase != BLOCKED && e.phase != COPARKED) continue;
+                awaiter *a = nullptr;
+                {
+                    std::lock_guard g((*c.q).*(&q_peek::_mx));
+                    auto &reg = ((*c.q).*(&q_peek::_regs))[s_handle(*e.s)];
+                    a = reg._awt;
+                    reg._awt = nullptr;
+                }
+                if (a) a->resume();
+            }
             for (auto &e : c.subs) {
                 if (e.thr.joinable()) e.thr.join();   // cannot happen after close; defensive
                 e.s.reset();
@@ -415,11 +430,22 @@ static void run_threads(std::istream &in, std::size_t maxlen, std::size_t minlen
     vh::emit("end", evs);
 }
 
+// a lost wake-up makes a helper thread wait forever: turn that into a fast, attributable failure
+static void on_alarm(int) {
+    static const char msg[] = "hang: watchdog expired (a waiting subscriber was never resumed)\n";
+    ssize_t r = write(1, msg, sizeof(msg) - 1);
+    (void)r;
+    _exit(3);
+}
+
 int main() {
+    std::cout << std::unitbuf;
+    signal(SIGALRM, on_alarm);
     std::string line;
     while (std::getline(std::cin, line)) {
         auto w = vh::split(line);
         if (w.empty() || w[0] != "case") continue;
+        alarm(w.size() > 2 && w[2] == "thr" ? 60 : 10);
         std::cout << "case " << w[1] << "\n";
         const std::string kind = w.size() > 2 ? w[2] : "";
         std::size_t mx = w.size() > 3 ? (std::size_t)atoll(w[3].c_str()) : 0;
@@ -428,6 +454,7 @@ int main() {
         else if (kind == "thr") run_threads(std::cin, mx, mn, w.size() > 5 ? atoi(w[5].c_str()) : 10,
                                             w.size() > 6 ? atoi(w[6].c_str()) : 1, w.size() > 7 ? w[7] : "a");
         else std::cout << "bad-kind\n";
+        alarm(0);
         std::cout.flush();
     }
     return 0;
